@@ -57,7 +57,13 @@ def _shape_rings(geom):
         return ()
     if geom.geom_type == "MultiPolygon":
         return tuple(np.asarray(p.exterior.coords, dtype=np.float64) for p in geom.geoms)
-    return (np.asarray(geom.exterior.coords, dtype=np.float64),)
+    if geom.geom_type == "Polygon":
+        return (np.asarray(geom.exterior.coords, dtype=np.float64),)
+    # anything else (only ever put there by a caller edit): keep type and coordinates
+    try:
+        return (geom.geom_type, np.asarray(geom.coords, dtype=np.float64))
+    except Exception:
+        return (geom.geom_type, geom.wkt)
 
 
 def gdf_rows(gdf):
